@@ -29,7 +29,7 @@ Definition lattice_site_status : list (string * string * string * string) :=
     ("insert", "self.ends_full[end_idx]", "S_insert_full_end", "proved: C03_lattice_no_index_panic");
     ("connect_node", "self.ends[begin]", "S_connect_ends_begin", "proved: C03_lattice_no_index_panic");
     ("connect_node", "conn.cost(..)", "S_conn_left / S_conn_right / S_conn_index / PUB", "proved: C03_conn_cost_in_table, C03_lattice_no_index_panic (ids below the matrix dimensions: C20_accepted_config_index_safe)");
-    ("connect_node", "l_node.total_cost() + connect_cost + node_cost", "S_add_overflow", "proved under the cost bound: C03_no_overflow_if_bounded (Model/LatticeM.v); wraps without overflow checks: C03_lattice_no_panic_release; beyond the bound: known finding i32_cost_overflow");
+    ("connect_node", "l_node.total_cost() + connect_cost + node_cost", "S_add_overflow", "proved under the cost bound: C03_lattice_never_panics_debug (= C03_no_overflow_if_bounded carried over to the panicking model by C03_lattice_models_agree); wraps without overflow checks: C03_lattice_no_panic_release; beyond the bound: known finding i32_cost_overflow");
     ("connect_node", "r_node.cost() as i32 / conn.cost(..) as i32", "-", "widening i16 -> i32: lossless by type");
     ("connect_node", "begin as u16", "as_u16", "proved: identity under round_wf (begin < end <= length <= 65535)");
     ("connect_node", "i as u16", "as_u16", "proved: identity under round_wf (rows_small: at most 65535 words end at one boundary; invariant i_small)");
